@@ -8,7 +8,7 @@
    The four findings F13a-d have been repaired in the code ("fix:" commits
    168749f3, d390f22b, f0b9913b, e1d625e1); the model follows the repaired
    code and every theorem is stated without a trigger hypothesis. *)
-From RV Require Import Remote.Model Remote.Proofs.
+From RV Require Import Remote.Model Remote.Proofs Remote.Text Remote.TextProofs Remote.NamedGraph Remote.NamedGraphProofs.
 Local Open Scope N_scope.
 
 (* The tie between model and checker: what the model does is accepted by the
@@ -86,6 +86,67 @@ Theorem C20_spec_reading_triples : forall p c now l, read_ok (OTriples p c) now 
   NoDup l /\ forall t, In t l <-> In (t, cid_of c) (quads now) /\ matches p t = true.
 Proof. exact read_ok_triples. Qed.
 Print Assumptions C20_spec_reading_triples.
+
+(* ---- request TEXT (Remote/Text.v: AST, printer = the exact wire text, denotation) ---- *)
+
+(* reads: the query the store prints for triples() [SELECT of the unbound
+   positions / ASK], __len__ [count] and contexts() [GRAPH ?name], evaluated by
+   the denotation of the AST at the endpoint (one-triple basic graph patterns,
+   projection, the default-graph-uri parameter) and decoded the way the store
+   decodes the rows, is the answer of the request algebra - the term the
+   simulation theorem uses. *)
+Theorem C20_text_reads_denote : forall alias o q dg e, read_q o = Some (q, dg) -> NoDup (quads e) ->
+  decode o (sem_q alias q dg e) = read_ans alias o e.
+Proof. exact reads_denote. Qed.
+Print Assumptions C20_text_reads_denote.
+
+(* writes: every statement the store prints for add / addN / remove / add_graph /
+   remove_graph [INSERT DATA with or without GRAPH, (WITH g) DELETE {tp} WHERE {tp}
+   with ?S ?P ?O, CREATE GRAPH, DROP GRAPH / DROP DEFAULT] denotes, on every
+   endpoint dataset, the request-algebra term [compile] gives for it. *)
+Theorem C20_text_writes_denote : forall alias o asts, write_asts o = Some asts ->
+  exists us, compile o = Some us /\
+    Forall2 (fun a u => forall e, sem_u alias a e = apply_upd alias e u) asts us.
+Proof. exact writes_denote. Qed.
+Print Assumptions C20_text_writes_denote.
+
+(* ---- _insert_named_graph (Remote/NamedGraph.v, character level) ---- *)
+
+(* the level/pos loop, over the match sequence of ANY text with block structure
+   [l] (nesting of any depth, any chunking of the text between braces): the
+   GRAPH wrapper goes around the content of exactly the non-blank top-level
+   blocks, everything else is kept *)
+Theorem C20_insert_items_wraps : forall g l, insert_items g (items_of l) = wrap_spec g l.
+Proof. exact insert_items_wraps. Qed.
+Print Assumptions C20_insert_items_wraps.
+
+(* ... and with the scanner (BLOCK_FINDING_PATTERN, character by character): for
+   every update text written in the token language - nested blocks, short and
+   LONG string literals in either quote style containing braces / quotes /
+   escapes (short ones non-empty), IRIs, comments, escaped characters, other
+   characters *)
+Theorem C20_insert_named_graph_wraps : forall g l, forallb tok_ok l = true ->
+  insert_named_graph g (flat_map tok_text l) = wrap_spec g (map erase l)
+  /\ render (map erase l) = flat_map tok_text l.
+Proof. exact insert_named_graph_wraps. Qed.
+Print Assumptions C20_insert_named_graph_wraps.
+
+(* non-vacuity: a text with a brace pair and an escaped quote inside a string, a brace inside a
+   comment and a blank block is in the token language; only the first block gets the wrapper *)
+Example C20_named_graph_nonvacuous :
+  forallb tok_ok ex_toks = true /\ insert_named_graph ex_graph (flat_map tok_text ex_toks) = ex_out.
+Proof. vm_compute. split; reflexivity. Qed.
+
+(* F13e (before 45087ba7, the LONG alternatives after the short ones): a block holding one LONG
+   string literal - the n3 form rdflib gives a literal with a newline, a quote and braces - was not
+   wrapped as a block, the wrapper ended up inside the literal; with the repaired order it is *)
+Theorem C20_long_string_refuted :
+  insert_named_graph_hist ex_graph ([cLBRACE] ++ bad_lit ++ [cRBRACE])
+  <> [cLBRACE] ++ graph_open ex_graph ++ bad_lit ++ graph_close ++ [cRBRACE]
+  /\ insert_named_graph ex_graph ([cLBRACE] ++ bad_lit ++ [cRBRACE])
+     = [cLBRACE] ++ graph_open ex_graph ++ bad_lit ++ graph_close ++ [cRBRACE].
+Proof. exact long_string_refuted. Qed.
+Print Assumptions C20_long_string_refuted.
 
 (* ---- the historical definitions do not have the property ------------ *)
 
